@@ -169,8 +169,10 @@ def roundtrip(rmod, rule, text, path, hook=None):
         if hook and hook[1] == 'before':
             router.add_hook(hook[0], lambda *a, **kw: None)
         route = router.add(text, 'GET', h)
-        if hook and hook[1] == 'after':
+        if hook and hook[1] in ('after', 'after-then-removed'):
             router.add_hook(hook[0], lambda *a, **kw: None)
+        if hook and hook[1] == 'after-then-removed':
+            router.remove_hook(hook[0])          # the hook goes again: the route is as it was
         if hook and hook[1] == 'overwrite':
             # the same pattern registered again for another verb, written with other wildcard names, with overwrite=True:
             # the route that matched GET still builds and matches with the names of ITS rule
@@ -318,7 +320,7 @@ def check_hooked(res, rmod, rule):
             continue
         if htext is None or (how == 'anon' and htext == rr.default_text(renamed(rule, 'other'))):
             continue
-        for when in ('after', 'before', 'overwrite'):
+        for when in ('after', 'before', 'overwrite', 'after-then-removed'):
             res['states'] += 1
             for p in [q for q in paths_for(rule) if rr.match(rule, q.strip('/')) is not None][:60]:
                 r = roundtrip(rmod, rule, text, p, hook=(htext, when))
